@@ -30,6 +30,9 @@ Import RecordSetNotations.
 
 Local Open Scope N_scope.
 
+(* byte strings: [Hex.bytes] unfolded, so that every map in this development has the same value type *)
+Notation bytes := (list N) (only parsing).
+
 (* ---------- naming of keys and special addresses ---------- *)
 Definition erckey (a : N) : N := 1000 + a.          (* GetERC20Key(a, position) *)
 Definition is_erckey (k : N) : bool := 1000 <=? k.
@@ -426,8 +429,8 @@ Definition step (o : op) (s : state) : state * ans :=
   | OGetCommitted a k =>
       let s1 := ensure false a s in
       match objs s1 !! a with
-      | Some o => let '(o', v) := o_getcommitted k o in (s1 <| objs := <[a := o']> (objs s1) |>, ABy v)
-      | None => (s1, ABy [])
+      | Some o => let '(o', v) := o_getcommitted k o in (s1 <| objs := <[a := o']> (objs s1) |>, AN (bev v))
+      | None => (s1, AN 0)
       end
   | OGetCode a => let '(s1, c) := s_loadcode a (ensure false a s) in (s1, ABy (default [] c))
   | OGetCodeHash a => let s1 := ensure false a s in (s1, AN (obj_field s1 a o_hash zerohash))
@@ -450,8 +453,9 @@ Definition step (o : op) (s : state) : state * ans :=
   end.
 
 (* ---------- programs: well-bracketed by construction ---------- *)
-(* [Bracket obs body rv]: run the queries [obs]; Snapshot; run [body]; if [rv] RevertToSnapshot and
-   run [obs] again.  Covers every valid use of the API: a revision id can be reverted at most once
+(* [Bracket obs body rv]: run the queries [obs] twice (the first round lets their own side effects
+   happen: cache fills, creation of the token-contract object; the second round is the record of
+   the state at snapshot time); Snapshot; run [body]; if [rv] RevertToSnapshot and run [obs] again.  Covers every valid use of the API: a revision id can be reverted at most once
    and reverting to an outer id discards the inner ones (= inner brackets that were kept). *)
 Inductive item :=
 | Do (o : op)
@@ -467,15 +471,16 @@ Fixpoint run_item (it : item) (s : state) : state * list ans :=
   match it with
   | Do o => let '(s1, x) := step o s in (s1, [x])
   | Bracket obs body rv =>
-      let '(s0, x0) := run_ops obs s in
+      let '(sw, xw) := run_ops obs s in
+      let '(s0, x0) := run_ops obs sw in
       let '(s1, id) := snapshot s0 in
       let '(s2, xs) := (fix go (l : list item) (s : state) : state * list ans :=
                           match l with
                           | [] => (s, [])
                           | it :: r => let '(s1, x) := run_item it s in let '(s2, y) := go r s1 in (s2, x ++ y)
                           end) body s1 in
-      if rv then let '(s3, x3) := run_ops obs (revert id s2) in (s3, x0 ++ xs ++ x3)
-      else (s2, x0 ++ xs)
+      if rv then let '(s3, x3) := run_ops obs (revert id s2) in (s3, xw ++ x0 ++ xs ++ x3)
+      else (s2, xw ++ x0 ++ xs)
   end.
 
 Fixpoint run (l : list item) (s : state) : state * list ans :=
